@@ -25,7 +25,9 @@ Record srcfacts := mkFacts {
   sf_touch_before_dump : bool;  (* get_conditions(self.conditions) is evaluated before dill.dump *)
   sf_save_dict : list (string * string);                  (* key, stored expression *)
   sf_ctor : list (string * list (string * string));       (* solver kind, [(keyword, provenance)] *)
-  sf_restores : list (string * string) }.                 (* attribute restored after construction, provenance *)
+  sf_restores : list (string * string);                   (* attribute restored after construction, provenance *)
+  sf_effects : list (string * string) }.                  (* solver kind (or "all"), effect of a call on the save path that is
+                                                             not a pure read: draw:train, draw:valid, pyrandom, torchrng, other:.. *)
 
 Fixpoint assoc {B} (k : string) (l : list (string * B)) : option B :=
   match l with
@@ -56,6 +58,11 @@ Inductive attr :=
 
 Record cond := mkCond { c_type : nat; c_attrs : list (string * attr) }.
 
+(* state outside the solver's attributes that later training depends on: how many batches have been
+   drawn from the solver's own train / valid generators (their next draws), how often the global
+   `random` module and torch's global RNG have been advanced; unknown = effects not modelled *)
+Record envstate := mkEnv { drawn_train : nat; drawn_valid : nat; py_random : nat; torch_rng : nat; unknown : nat }.
+
 Record state := mkState {
   kind : skind;
   nets : list Z;                 (* fingerprint of each network's parameters *)
@@ -67,14 +74,18 @@ Record state := mkState {
   conds : list cond;
   loss_id : nat;                 (* 0 = the default loss *)
   n_params : nat;                (* number of bundle parameters the generator yields *)
-  eqs : list (list nat)          (* _diff_eqs_wrapper layers around the user's equations, outermost
+  eqs : list (list nat);         (* _diff_eqs_wrapper layers around the user's equations, outermost
                                     first: each holds the eq_param_index captured by its closure *)
+  env : envstate                 (* generators' positions and global RNG use *)
 }.
 
 Definition global_epoch (s : state) : nat := length (train_hist s).
 
 Definition set_conds (s : state) (c : list cond) : state :=
-  mkState (kind s) (nets s) (opt s) (train_hist s) (valid_hist s) (lowest s) (best s) c (loss_id s) (n_params s) (eqs s).
+  mkState (kind s) (nets s) (opt s) (train_hist s) (valid_hist s) (lowest s) (best s) c (loss_id s) (n_params s) (eqs s) (env s).
+
+Definition set_env (s : state) (e : envstate) : state :=
+  mkState (kind s) (nets s) (opt s) (train_hist s) (valid_hist s) (lowest s) (best s) (conds s) (loss_id s) (n_params s) (eqs s) e.
 
 (* every wrapper layer can pick its parameters out of what the layer above passes down *)
 Fixpoint eqs_ok (avail : nat) (layers : list (list nat)) : bool :=
@@ -104,6 +115,21 @@ Definition touch_cond (sf : srcfacts) (c : cond) : cond :=
 Definition cond_sem (c : cond) : cond :=
   mkCond (c_type c) (filter (fun kv => negb (String.eqb (fst kv) "condition_type")) (c_attrs c)).
 
+(* ------------------------------------------------------------------ effects of the save path *)
+Definition effect_known (t : string) : bool :=
+  String.eqb t "draw:train" || String.eqb t "draw:valid" || String.eqb t "pyrandom" || String.eqb t "torchrng".
+Definition for_kind (k : skind) (p : string * string) : bool := String.eqb (fst p) (skind_name k) || String.eqb (fst p) "all".
+Definition count_effect (sf : srcfacts) (k : skind) (tag : string) : nat :=
+  length (filter (fun p => for_kind k p && String.eqb (snd p) tag) (sf_effects sf)).
+Definition count_unknown (sf : srcfacts) (k : skind) : nat :=
+  length (filter (fun p => for_kind k p && negb (effect_known (snd p))) (sf_effects sf)).
+
+(* what running the save path does to the environment (it runs before dill.dump) *)
+Definition save_env (sf : srcfacts) (k : skind) (e : envstate) : envstate :=
+  mkEnv (count_effect sf k "draw:train" + drawn_train e) (count_effect sf k "draw:valid" + drawn_valid e)
+        (count_effect sf k "pyrandom" + py_random e) (count_effect sf k "torchrng" + torch_rng e)
+        (count_unknown sf k + unknown e).
+
 (* ------------------------------------------------------------------ the saved dictionary *)
 Record file := mkFile {
   f_kind : option skind;                  (* "type_name" *)
@@ -118,7 +144,8 @@ Record file := mkFile {
   f_eqs : option (list (list nat));       (* "diff_eqs": the solver's (wrapped) equations *)
   f_generator : bool;                     (* "generator" *)
   f_metrics : bool;                       (* "metrics" *)
-  f_solver : option (nat)                 (* "solver": the solver itself (r_min/r_max, hence n_params) *)
+  f_solver : option (nat);                (* "solver": the solver itself (r_min/r_max, hence n_params) *)
+  f_gen_pos : nat * nat                   (* the pickled generators carry their position (cache, counters) *)
 }.
 
 Definition opt_if {B} (b : bool) (x : B) : option B := if b then Some x else None.
@@ -137,7 +164,8 @@ Definition mkfile (sf : srcfacts) (s : state) : file :=
          (opt_if (saved sf "diff_eqs" "self.diff_eqs") (eqs s))
          (saved sf "generator" "self.generator")
          (saved sf "metrics" "self.metrics_fn")
-         (opt_if (saved sf "solver" "self") (n_params s)).
+         (opt_if (saved sf "solver" "self") (n_params s))
+         (drawn_train (env s), drawn_valid (env s)).
 
 (* save: the solver afterwards, and the file if serialisation succeeded (an oracle outcome).
    get_conditions runs while the descriptive dictionary is built; the condition objects stored
@@ -145,9 +173,10 @@ Definition mkfile (sf : srcfacts) (s : state) : file :=
 Definition save (sf : srcfacts) (s : state) (ser_ok : bool) : state * option file :=
   let touched_early := sf_aliased sf && sf_touch_before_dump sf in
   let touched := sf_aliased sf && (sf_touch_before_dump sf || ser_ok) in
-  let s_touched := set_conds s (map (touch_cond sf) (conds s)) in
-  let at_dump := if touched_early then s_touched else s in
-  (if touched then s_touched else s, if ser_ok then Some (mkfile sf at_dump) else None).
+  let s_env := set_env s (save_env sf (kind s) (env s)) in            (* preview helpers etc. run first *)
+  let s_touched := set_conds s_env (map (touch_cond sf) (conds s)) in
+  let at_dump := if touched_early then s_touched else s_env in
+  (if touched then s_touched else s_env, if ser_ok then Some (mkfile sf at_dump) else None).
 
 (* ------------------------------------------------------------------ load *)
 Definition ctor_args (sf : srcfacts) (k : skind) : option (list (string * string)) := assoc (skind_name k) (sf_ctor sf).
@@ -195,7 +224,10 @@ Definition load (sf : srcfacts) (f : file) : option state :=
                     (if restored sf "lowest_loss" "file:lowest_loss" || restored sf "lowest_loss" "fileget:lowest_loss"
                      then match f_lowest f with Some x => x | None => None end else None)
                     (if restored sf "best_nets" "file:best_nets" then match f_best f with Some b => b | None => None end else None)
-                    c l (match k with KBundle => np | _ => 0 end) layers)
+                    c l (match k with KBundle => np | _ => 0 end) layers
+                    (* the loaded generators continue where the saved ones were; the process-wide RNG
+                       counters are not part of a solver: a fresh process starts them at 0 *)
+                    (mkEnv (fst (f_gen_pos f)) (snd (f_gen_pos f)) 0 0 0))
             end
           | _, _ => None
           end
@@ -205,7 +237,7 @@ Definition load (sf : srcfacts) (f : file) : option state :=
   end.
 
 (* ------------------------------------------------------------------ training epochs (oracle data) *)
-Record epoch_data := mkEpoch { e_train : Q; e_valid : Q; e_nets : list Z; e_opt : Z }.
+Record epoch_data := mkEpoch { e_train : Q; e_valid : Q; e_nets : list Z; e_opt : Z; e_draws : nat * nat }.
 
 Definition Qltb (a b : Q) : bool := negb (Qle_bool b a).
 
@@ -215,7 +247,14 @@ Definition run_epoch (s : state) (e : epoch_data) : state :=
   mkState (kind s) (e_nets e) (e_opt e) (train_hist s ++ [e_train e]) (valid_hist s ++ [e_valid e])
           (if better then Some (e_valid e) else lowest s)
           (if better then Some (e_nets e) else best s)
-          (conds s) (loss_id s) (n_params s) (eqs s).
+          (conds s) (loss_id s) (n_params s) (eqs s)
+          (mkEnv (drawn_train (env s) + fst (e_draws e)) (drawn_valid (env s) + snd (e_draws e))
+                 (py_random (env s)) (torch_rng (env s)) (unknown (env s))).
+
+(* training driven by ANY deterministic trainer that may read the whole state, generator positions
+   and RNG counters included: what "a twin that was never saved" runs *)
+Fixpoint fit_by (tr : state -> epoch_data) (s : state) (k : nat) : state :=
+  match k with O => s | S k' => fit_by tr (run_epoch s (tr s)) k' end.
 
 Definition fit (s : state) (es : list epoch_data) : state := fold_left run_epoch es s.
 
@@ -254,7 +293,14 @@ Inductive op :=
 Definition run_op (sf : srcfacts) (s : state) (o : op) : option state :=
   match o with
   | OSave ok => Some (fst (save sf s ok))
-  | OSaveLoad => match snd (save sf s true) with Some f => load sf f | None => None end
+  | OSaveLoad => (* the load happens in the same process: its RNG counters go on *)
+      let s' := fst (save sf s true) in
+      match snd (save sf s true) with
+      | Some f => match load sf f with
+                  | Some l => Some (set_env l (mkEnv (drawn_train (env l)) (drawn_valid (env l))
+                                                     (py_random (env s')) (torch_rng (env s')) (unknown (env s'))))
+                  | None => None end
+      | None => None end
   | OFit es => Some (fit s es)
   end.
 
@@ -290,4 +336,7 @@ Definition state_eqb (a b : state) : bool :=
   && leqb Qsame (train_hist a) (train_hist b) && leqb Qsame (valid_hist a) (valid_hist b)
   && oeqb Qsame (lowest a) (lowest b) && oeqb (leqb Z.eqb) (best a) (best b)
   && leqb cond_eqb (conds a) (conds b) && Nat.eqb (loss_id a) (loss_id b)
-  && Nat.eqb (n_params a) (n_params b) && leqb (leqb Nat.eqb) (eqs a) (eqs b).
+  && Nat.eqb (n_params a) (n_params b) && leqb (leqb Nat.eqb) (eqs a) (eqs b)
+  && Nat.eqb (drawn_train (env a)) (drawn_train (env b)) && Nat.eqb (drawn_valid (env a)) (drawn_valid (env b))
+  && Nat.eqb (py_random (env a)) (py_random (env b)) && Nat.eqb (torch_rng (env a)) (torch_rng (env b))
+  && Nat.eqb (unknown (env a)) (unknown (env b)).
